@@ -29,7 +29,12 @@ var exits = []string{"break", "continue", "return", "return-value", "throw", "fa
 // the 2nd element of a list literal, an index, the 2nd argument of a call of a declared function
 // and of a function value, the end of a range, the right hand side of a compound assignment to a
 // local and of plain/compound assignments to a member and to a list element.
-var exprWrappers = []string{"obj-field", "list-elem", "index", "fn-arg", "closure-arg", "range-end", "compound-assign", "member-assign", "member-compound", "index-assign", "index-compound"}
+//
+// "method-arg": the argument of a builtin member call (`t.push({ .. 2 })`), "operand-nolet": the
+// right operand of an operator inside an argument list, in a statement which declares no variable
+// (`println(out, 1 + { .. 2 }, keep)`): together with "argument" and "call-param" the whole
+// function is then free of `let`, so that its frame holds nothing but its parameters.
+var exprWrappers = []string{"obj-field", "list-elem", "index", "fn-arg", "closure-arg", "range-end", "compound-assign", "member-assign", "member-compound", "index-assign", "index-compound", "method-arg", "operand-nolet"}
 
 // valueExits: exits whose own value expression leaves early: `return f()` and `throw(f())` where
 // f throws (the exception is raised while the exit statement is half executed; it must reach the
@@ -59,13 +64,39 @@ var valueWrappers = []string{"operand-left", "try-operand", "catch-operand", "tr
 // callWrappers: like "call", but the function has a long name (21, 39, 57 characters, by level):
 // what is on the call stack when the exit happens must not matter, in particular not for how a
 // fatal error or an uncaught throw ends the run.
-var callWrappers = []string{"call-long"}
+//
+// "call-param": the function declares no local of its own: its `keep` is a parameter (handed
+// 100+k), so that - unless a wrapper beneath it declares one - the frame of the function consists
+// of parameters only; the caller's locals (its keep first of all) are printed behind the call.
+var callWrappers = []string{"call-long", "call-param"}
 
-var allWrappers = append(append(append(append([]string{}, wrappers...), exprWrappers...), iterWrappers...), append(append([]string{}, valueWrappers...), callWrappers...)...)
+// condWrappers: the construct sits in the controlling expression of a statement, which does NOT
+// belong to what the statement controls: the condition of a `while` (`while { .. c < 2 } { c += 1; }`;
+// a break/continue in it binds to the loop AROUND the while - the analyzer and the compiler take
+// the condition before they enter the loop -, so the wrapper is not a loop for what it holds), the
+// condition of an `if` and the subject of a `match`.
+var condWrappers = []string{"while-cond", "if-cond", "match-subject"}
+
+// repeatWrappers: a `for` over a range of manyRounds items: what the nesting beneath it does per
+// round (an exit which is survived inside the round: caught, or bound to an inner loop / function)
+// happens more often than the interpreter's call limit treeCallLimit allows frames, while the real
+// call depth of every program stays far below it (at most depth+3): bookkeeping which loses a
+// frame, a handler or an operand per exit runs into a limit the source is nowhere near.
+var repeatWrappers = []string{"for-many"}
+
+const manyRounds = 20
+
+// treeCallLimit: the call limit every interpreter run gets (the host chooses it; the deepest
+// program calls main -> 4 nested functions -> a helper -> a builtin).
+const treeCallLimit = 16
+
+var newWrappers = append(append([]string{"call-param", "method-arg", "operand-nolet"}, condWrappers...), repeatWrappers...)
+
+var allWrappers = append(append(append(append(append([]string{}, wrappers...), exprWrappers...), iterWrappers...), append(append([]string{}, valueWrappers...), callWrappers...)...), append(append([]string{}, condWrappers...), repeatWrappers...)...)
 var allExits = append(append([]string{}, exits...), valueExits...)
 
-func isCall(w string) bool { return w == "call" || w == "call-long" }
-func isFor(w string) bool  { return w == "for" || isIn(iterWrappers, w) }
+func isCall(w string) bool { return w == "call" || isIn(callWrappers, w) }
+func isFor(w string) bool  { return w == "for" || isIn(iterWrappers, w) || isIn(repeatWrappers, w) }
 func isLoop(w string) bool { return w == "loop" || w == "while" || isFor(w) }
 
 // isTry: the wrapper catches what is thrown inside it.
@@ -116,8 +147,10 @@ func (c11) Info(tier string) fw.Info {
 		Level: "exploration",
 		Rule: fmt.Sprintf("exhaustive enumeration of wrapper stacks of depth 1..%d over %v with each exit kind %v innermost, filtered to the statically legal ones (break/continue need a loop in the same function); "+
 			"around it a fixed scaffold: a local set before, trace tags before/inside/after every level, a second try and a second loop after the construct, then a final uncaught throw variant; "+
-			"extended family: the same scaffold over the wrappers %v in addition (for loops over string/list literals and over string/list/range variables which are iterated again in full behind the construct; the construct as LEFT operand of an operator whose right operand prints: block, try with a value-yielding catch, catch of a try which always throws, directly / through a let / as compound-assignment target; calls of functions with long names) and the exits %v in addition (every combination which is not in the base family): exhaustive for depth 1..2, a VERIF_SEED-selected sample of %d stacks of depth 3 and %d of depth 4; "+
-			"each program runs on the VM (trace, outcome, residue, handlers) and on the interpreter and is compared with the reference evaluator. non-trivial = the exit statement was reached (its 'pre-exit' tag is in the model trace); distinct = distinct (stack, exit, variant)", depth(tier), wrappers, exits, allWrappers[len(wrappers):], valueExits, d3, d4),
+			"extended family: the same scaffold over the wrappers %v in addition (for loops over string/list literals and over string/list/range variables which are iterated again in full behind the construct; the construct as LEFT operand of an operator whose right operand prints: block, try with a value-yielding catch, catch of a try which always throws, directly / through a let / as compound-assignment target; calls of functions with long names and of functions whose only locals are parameters; a builtin member call argument and an operand inside a let-free statement; the condition of a while / of an if and the subject of a match - a break/continue there binds to the loop around the statement; a for over %d items) and the exits %v in addition (every combination which is not in the base family): exhaustive for depth 1..2, a VERIF_SEED-selected sample of %d stacks of depth 3 and %d of depth 4; "+
+			"repeat family: every base stack of depth 2 beneath a for over %d items, each exit; "+
+			"the interpreter runs with a call limit of %d frames (the programs never nest more than depth+3 calls); "+
+			"each program runs on the VM (trace, outcome, residue, handlers) and on the interpreter and is compared with the reference evaluator. non-trivial = the exit statement was reached (its 'pre-exit' tag is in the model trace); distinct = distinct (stack, exit, variant)", depth(tier), wrappers, exits, allWrappers[len(wrappers):], manyRounds, valueExits, d3, d4, manyRounds, treeCallLimit),
 		Assumptions: []string{"depth bound as stated; data-dependent exits are covered by the random programs of C01",
 			"exhaustive holds for the base family (all depths stated) and for depth 1..2 of the extended family; deeper stacks of the extended family are a seeded sample",
 			"expression positions of type never which the unchanged tree does not take (index, object-literal field) are only exercised behind a condition"},
@@ -341,6 +374,15 @@ func (b *builder) exprWrapper(w string, k int, out string, blk *prog.Block) []pr
 		return []prog.Stmt{prog.Let{Name: v, V: prog.ListLit{Elems: []prog.Expr{prog.IntLit{V: 10}, prog.IntLit{V: 20}}, Ty: intList}},
 			prog.ExprStmt{X: prog.Assign{Op: op, Target: prog.Index{X: lv, I: prog.IntLit{V: 1}}, V: blk}},
 			say(outS, lv, keepVar)}
+	case "method-arg":
+		blk.Tail = prog.IntLit{V: 2}
+		lv := prog.Var{Name: v, Ty: intList}
+		return []prog.Stmt{prog.Let{Name: v, V: prog.ListLit{Elems: []prog.Expr{prog.IntLit{V: 10}}, Ty: intList}},
+			prog.ExprStmt{X: prog.MCall{Recv: lv, Name: "push", Args: []prog.Expr{blk}, Ret: prog.Null}},
+			say(outS, lv, keepVar)}
+	case "operand-nolet":
+		blk.Tail = prog.IntLit{V: 2}
+		return []prog.Stmt{say(outS, prog.Infix{Op: "+", L: prog.IntLit{V: 1}, R: blk}, keepVar)}
 	case "operand-left":
 		blk.Tail = prog.IntLit{V: 2}
 		return []prog.Stmt{prog.Let{Name: v, V: prog.Infix{Op: "+", L: blk, R: b.side()}}, say(outS, prog.Var{Name: v, Ty: prog.Int}, keepVar)}
@@ -364,6 +406,24 @@ func (b *builder) exprWrapper(w string, k int, out string, blk *prog.Block) []pr
 			return []prog.Stmt{prog.Let{Name: v, V: try}, prog.ExprStmt{X: prog.Assign{Op: "+=", Target: tv, V: b.side()}}, say(outS, tv, keepVar)}
 		}
 		return []prog.Stmt{prog.Let{Name: v, V: prog.Infix{Op: "+", L: prog.Grouped{X: try}, R: b.side()}}, say(outS, tv, keepVar)}
+	}
+	panic("c11: unknown wrapper " + w)
+}
+
+// condWrapper puts the block into the controlling expression of a while / if / match.
+func (b *builder) condWrapper(w string, k int, in, out string, blk *prog.Block) []prog.Stmt {
+	switch w {
+	case "while-cond":
+		c := prog.Var{Name: fmt.Sprintf("c%d", k), Ty: prog.Int}
+		blk.Tail = prog.Infix{Op: "<", L: c, R: prog.IntLit{V: 2}}
+		wb := &prog.Block{Stmts: []prog.Stmt{prog.ExprStmt{X: prog.Assign{Op: "+=", Target: c, V: prog.IntLit{V: 1}}}, say(prog.StrLit{V: "body-" + in}, c, keepVar)}}
+		return []prog.Stmt{prog.Let{Name: c.Name, V: prog.IntLit{V: 0}}, prog.While{Cond: blk, Body: wb}, say(prog.StrLit{V: out}, c, keepVar)}
+	case "if-cond":
+		blk.Tail = prog.Infix{Op: ">", L: keepVar, R: prog.IntLit{V: 0}}
+		return []prog.Stmt{prog.ExprStmt{X: prog.If{Cond: blk, Then: &prog.Block{Stmts: []prog.Stmt{tagKeep("then-" + in)}}, Else: &prog.Block{Stmts: []prog.Stmt{b.tag("wrong-branch")}}}}, tagKeep(out)}
+	case "match-subject":
+		blk.Tail = prog.IntLit{V: 1}
+		return []prog.Stmt{prog.ExprStmt{X: prog.Match{X: blk, Arms: []prog.Arm{{Lits: []prog.Expr{prog.IntLit{V: 1}}, Body: &prog.Block{Stmts: []prog.Stmt{tagKeep("arm-" + in)}}}}, Default: &prog.Block{Stmts: []prog.Stmt{b.tag("wrong-arm")}}, Ty: prog.Null}}, tagKeep(out)}
 	}
 	panic("c11: unknown wrapper " + w)
 }
@@ -443,7 +503,7 @@ func Tags(stack []string, exit string) []string {
 		switch w {
 		case "try":
 			add("exit-out-of-try")
-		case "operand", "argument", "obj-field", "list-elem", "index", "fn-arg", "closure-arg", "range-end", "compound-assign", "member-assign", "member-compound", "index-assign", "index-compound":
+		case "operand", "argument", "obj-field", "list-elem", "index", "fn-arg", "closure-arg", "range-end", "compound-assign", "member-assign", "member-compound", "index-assign", "index-compound", "method-arg", "operand-nolet":
 			// a throw that is caught restores the operand stack height recorded by its handler;
 			// only jumps (break/continue/return) leave the pending operands behind
 			if exit != "throw" && !isIn(valueExits, exit) {
@@ -552,6 +612,14 @@ func build(p Payload, model bool) *prog.Program {
 			cur = []prog.Stmt{prog.Let{Name: c.Name, V: prog.IntLit{V: 0}}, prog.While{Cond: prog.Infix{Op: "<", L: c, R: prog.IntLit{V: 2}}, Body: lb}, tagKeep(out)}
 		case "for":
 			cur = []prog.Stmt{prog.For{Name: fmt.Sprintf("i%d", k), Iter: prog.RangeLit{A: prog.IntLit{V: 0}, B: prog.IntLit{V: 2}}, Body: blk}, tagKeep(out)}
+		case "for-many":
+			cur = []prog.Stmt{prog.For{Name: fmt.Sprintf("i%d", k), Iter: prog.RangeLit{A: prog.IntLit{V: 0}, B: prog.IntLit{V: manyRounds}}, Body: blk}, tagKeep(out)}
+		case "while-cond", "if-cond", "match-subject":
+			if p.Guarded {
+				guard := prog.If{Cond: prog.Infix{Op: ">", L: keepVar, R: prog.IntLit{V: 0}}, Then: &prog.Block{Stmts: cur}}
+				blk.Stmts = []prog.Stmt{tagKeep(in), prog.ExprStmt{X: guard}, b.tag("tail-" + in)}
+			}
+			cur = b.condWrapper(w, k, in, out, blk)
 		case "for-str":
 			cur = []prog.Stmt{prog.For{Name: fmt.Sprintf("i%d", k), Iter: b.strVal(), Body: blk}, tagKeep(out)}
 		case "for-str-last", "for-list-last":
@@ -586,13 +654,18 @@ func build(p Payload, model bool) *prog.Program {
 			e := fmt.Sprintf("e%d", k)
 			tb := &prog.Block{Stmts: []prog.Stmt{prog.ExprStmt{X: prog.Builtin{Name: "throw", Args: []prog.Expr{prog.StrLit{V: "to-handler"}}}}}}
 			cur = []prog.Stmt{prog.ExprStmt{X: prog.Try{Body: tb, Name: e, Handler: blk}}, tagKeep(out)}
-		case "call", "call-long":
+		case "call", "call-long", "call-param":
 			name := fmt.Sprintf("fn%d", k)
 			if w == "call-long" {
 				name += strings.Repeat("_leaves_its_caller", 1+(k-1)%3)
 			}
 			params, args := b.iterParams()
 			f := &prog.Func{Name: name, Ret: prog.Null, Params: params, Body: &prog.Block{Stmts: append([]prog.Stmt{prog.Let{Name: "keep", V: prog.IntLit{V: int64(100 + k)}}}, body...)}}
+			if w == "call-param" {
+				f.Params = append([]prog.Param{{Name: "keep", T: prog.Int}}, params...)
+				args = append([]prog.Expr{prog.IntLit{V: int64(100 + k)}}, args...)
+				f.Body = &prog.Block{Stmts: body}
+			}
 			if fnRet[i] {
 				f.Ret = prog.Int
 				f.Body.Tail = prog.IntLit{V: 55}
@@ -687,7 +760,12 @@ func admissible(stack []string, ex string) bool {
 	}
 	if ex == "return-value" {
 		// needs an enclosing function that can return a value: a call wrapper
-		return isIn(stack, "call") || isIn(stack, "call-long")
+		for _, w := range stack {
+			if isCall(w) {
+				return true
+			}
+		}
+		return false
 	}
 	return true
 }
@@ -734,6 +812,25 @@ func (c11) Cases(tier string, seed uint64) []fw.Case {
 			}
 		}
 	})
+	// repeat family: the base wrappers at depth 1..2 beneath a "for-many" (every exit which is
+	// survived inside the round happens manyRounds times).
+	// (These cases are the longest running ones: they are spread evenly over the case list so that
+	// they do not end up in the same few batches.)
+	n = 0
+	var heavy []fw.Case
+	enumerateOver(wrappers, 2, func(stack []string) {
+		if len(stack) != 2 {
+			return // depth 1 beneath for-many is part of the extended family
+		}
+		st := append([]string{"for-many"}, stack...)
+		for _, ex := range exits {
+			if admissible(st, ex) {
+				p := Payload{Stack: st, Exit: ex}
+				heavy = append(heavy, fw.MkCase(fmt.Sprintf("c11r-%d-%s-%s", n, strings.Join(st, "."), ex), "nest", p, Tags(st, ex)...))
+				n++
+			}
+		}
+	})
 	// shadow family: the base wrappers at depth 1..2 once more, every block with its own keep.
 	n = 0
 	enumerateOver(wrappers, 2, func(stack []string) {
@@ -774,6 +871,17 @@ func (c11) Cases(tier string, seed uint64) []fw.Case {
 			got++
 		}
 	}
+	if len(heavy) > 0 {
+		every := len(cases)/len(heavy) + 1
+		mixed := make([]fw.Case, 0, len(cases)+len(heavy))
+		for i, c := range cases {
+			if i%every == 0 && len(heavy) > 0 {
+				mixed, heavy = append(mixed, heavy[0]), heavy[1:]
+			}
+			mixed = append(mixed, c)
+		}
+		cases = append(mixed, heavy...)
+	}
 	return cases
 }
 
@@ -810,14 +918,20 @@ func (c11) Run(c fw.Case) fw.Result {
 	}
 	// interpreter side
 	ao := drive.Analyze(o.Src, "main", true)
-	tr := drive.RunTree(ao.Modules, o.Src, "main", drive.TreeOpts{StepBudget: int64(o.Model.Steps)*50 + 100000})
+	tr := drive.RunTree(ao.Modules, o.Src, "main", drive.TreeOpts{CallLimit: treeCallLimit, StepBudget: int64(o.Model.Steps)*50 + 100000})
 	twhy, tsig := "", ""
 	te := tr.Log.Render()
 	switch {
-	case tr.Outcome.Class == "go-panic" || tr.Outcome.Class == "step-budget":
+	case tr.Outcome.Class == "step-budget":
+		twhy, tsig = fmt.Sprintf("the interpreter does not come to an end (stopped after 50 times the steps of the model + 100000); the model ends %s with a trace of %d lines; ", o.Model.Class, strings.Count(o.Model.Effects, "\n"))+
+			firstDiff(o.Model.Effects, util.Clip(te, 4000), "interpreter"), "tree:step-budget"
+	case tr.Outcome.Class == "go-panic":
 		twhy, tsig = "interpreter: "+tr.Outcome.String(), "tree:"+tr.Outcome.Class
 	case te != o.Model.Effects:
-		twhy, tsig = firstDiff(o.Model.Effects, te, "interpreter")+fmt.Sprintf("interpreter trace differs:\n--- model\n%s\n--- tree\n%s", util.Clip(o.Model.Effects, 1200), util.Clip(te, 1200)), "tree:effects"
+		if tr.Outcome.Class != o.Model.Class {
+			twhy = fmt.Sprintf("the interpreter run ends with %s, the model with %s (call limit of the run: %d frames, real call depth of the program: at most %d); ", tr.Outcome, o.Model.Class, treeCallLimit, len(p.Stack)+3)
+		}
+		twhy, tsig = twhy+firstDiff(o.Model.Effects, te, "interpreter")+fmt.Sprintf("interpreter trace differs:\n--- model\n%s\n--- tree\n%s", util.Clip(o.Model.Effects, 1200), util.Clip(te, 1200)), "tree:effects"
 	case o.Model.Class != tr.Outcome.Class || (o.Model.Class == "fatal" && o.Model.Kind != tr.Outcome.Kind):
 		twhy, tsig = fmt.Sprintf("interpreter outcome %s, model %s/%s", tr.Outcome, o.Model.Class, o.Model.Kind), "tree:outcome"
 	case o.Model.Kind == "UncaughtThrow" && o.Model.Message != tr.Outcome.Message:
